@@ -538,7 +538,7 @@ SPECS = {
     'C06': {'jobs': jobs_C06, 'level': 'exploration', 'rule': RULE_SEQ + '; singular inputs only: structurally singular patterns, explicit zero column/row inside an otherwise generic matrix, all-ones values (exact cancellation)',
             'assumptions': ['the reported position is judged against symbolic elimination with the library\'s own pivots: info must lie between the first structurally rank-deficient column prefix and the first column that has no candidate row at all; deficiency that appears only through floating-point cancellation is not required to be detected',
                             'after a crash the sweep resumes behind the configuration that died, at most twice per matrix'],
-            'deadline': {'quick': 600, 'thorough': 3 * 3600}},
+            'deadline': {'quick': 1500, 'thorough': 3 * 3600}},
     'C16': {'jobs': jobs_C16, 'level': 'exploration', 'rule': RULE_SEQ + '; only patterns with a full diagonal, values row- and column-diagonally dominant, SymmetricMode=YES, ordering MMD(A^T+A), u=0',
             'assumptions': ['fill bound = values actually stored per block of the Cholesky prediction (relax=1) and the slot monitor on every allocation (all relax)'],
             'deadline': {'quick': 600, 'thorough': 3 * 3600}},
